@@ -89,3 +89,26 @@ func c07Scenario(p c07Params, chanCap int) *explore.Scenario {
 	}
 	return sc
 }
+
+func init() {
+	Register(&Prop{
+		ID:   "C07",
+		Rule: "every execution of each teardown/reconnect scenario (inbound backlog x outbound backlog x cause x reconnect mode x queue capacity) within the deviation budgets; distinct = distinct canonical observation (event log + wire transcript + blocked tasks) per scenario; a scenario with a single outcome or never more than one enabled task is flagged vacuous",
+		Assumptions: []string{
+			"interleavings are explored at synchronisation/channel/socket/timer granularity (DESIGN.md 3.8)",
+			"capacity-scaled scenarios (chancap=2) are an abstraction of the 32-slot queues; unscaled ones are the real thing",
+		},
+		Jobs: func(tier string) []Job {
+			var jobs []Job
+			for _, bl := range []int{0, 1, 33, 64, 65, 70} {
+				sc := c07Scenario(c07Params{Backlog: bl, Cause: "close"}, 0)
+				jobs = append(jobs, ExploreJob("C07", ExploreSpec{Sc: sc, Variants: []int{1, 2, 3}, Budgets: []explore.Budget{{0, 0}, {1, 0}}, Cache: true}, 10+bl))
+			}
+			for _, bl := range []int{0, 1, 3, 4, 5, 6} {
+				sc := c07Scenario(c07Params{Backlog: bl, Cause: "close"}, 2)
+				jobs = append(jobs, ExploreJob("C07", ExploreSpec{Sc: sc, Variants: []int{1, 2, 3}, Budgets: []explore.Budget{{0, 0}, {1, 0}, {2, 0}}, Cache: true, CrossChk: &explore.Budget{K: 1}}, 5+bl))
+			}
+			return jobs
+		},
+	})
+}
